@@ -22,6 +22,7 @@ type Mutant struct {
 	File     string // repo-relative
 	Old, New string // exact substring replacement (Old must occur exactly once)
 	Rule     string // rule expected to fire
+	Silent   bool   // negative control: a behaviour-preserving edit; the whole check must stay silent
 	Note     string
 }
 
@@ -115,6 +116,11 @@ func SelfValidate(c *ctx.Ctx, r *core.Reporter, prop string) {
 		switch {
 		case res.code == 3:
 			r.Info("mutant:"+res.m.ID, res.m.File, "self-test skipped: "+strings.TrimSpace(res.out))
+		case res.m.Silent && res.code == 0:
+			killed++
+			r.OK("control:"+res.m.ID, res.m.File, fmt.Sprintf("negative control (%s): the check stays silent", res.m.Note))
+		case res.m.Silent:
+			r.Info("control-alarm:"+res.m.ID, res.m.File, fmt.Sprintf("negative control (%s) raised an alarm (exit %d): the rule is too strict", res.m.Note, res.code))
 		case res.fired && res.code == 1:
 			killed++
 			r.OK("mutant:"+res.m.ID, res.m.File, fmt.Sprintf("mutant (%s) detected by %s", res.m.Note, res.m.Rule))
